@@ -35,7 +35,10 @@ pub fn run(args: &Args) {
         let cell = ops::parse(b);
         match vrt::catch_any(|| one(args.seed, i, &cell, inst)) {
             Ok(v) => out.emit(v),
-            Err(p) => out.fail(i, -1, "C38:panic", &format!("channel key derivation panicked: {p}"), json!({"ops": b.get("ops")})),
+            Err(p) => {
+                let key = if p.starts_with("HONEST-FAIL") { "C38:honest-operation-failed" } else { "C38:panic" };
+                out.fail(i, -1, key, &format!("channel key derivation panicked: {p}"), json!({"ops": b.get("ops")}))
+            }
         }
     }
     out.finish();
@@ -88,15 +91,6 @@ struct Params {
     encap: Vec<u8>,
 }
 
-fn other_id(rng: &mut vrt::Rng, orig: &[u8; 32]) -> [u8; 32] {
-    loop {
-        let mut b = [0u8; 32];
-        rng.fill(&mut b);
-        if &b != orig {
-            return b;
-        }
-    }
-}
 
 /// afc::create_uni_channel through the FFI module interface (as the policy VM calls it).
 fn ffi_create(author: &Dev, their_pk: &[u8], parent: CmdId, seal_id: DeviceId, open_id: DeviceId, label: LabelId) -> Result<(Vec<u8>, BaseId), String> {
@@ -153,14 +147,14 @@ fn one(seed: u64, i: usize, cell: &Cell, inst: u64) -> Value {
 
         // ---------------- author side (honest), both paths
         let ch_author = UniChannel { parent_cmd_id: parent, our_sk: &author.sk, their_pk: &peer.pk, seal_id: author.id, open_id: peer.id, label_id: label };
-        let secrets = UniSecrets::new(&author.eng, &ch_author).unwrap_or_else(|e| vrt::die(&format!("UniSecrets::new: {e}")));
+        let secrets = UniSecrets::new(&author.eng, &ch_author).unwrap_or_else(|e| panic!("HONEST-FAIL UniSecrets::new: {e}"));
         let api_encap = secrets.peer.as_bytes().to_vec();
         let mut api_seal = UniSealKey::from_author_secret(&ch_author, secrets.author)
             .and_then(|k| k.into_key())
-            .unwrap_or_else(|e| vrt::die(&format!("from_author_secret: {e}")));
+            .unwrap_or_else(|e| panic!("HONEST-FAIL from_author_secret: {e}"));
 
         let (h_encap, h_key_id) = ffi_create(&author, &enc_pk(&peer.pk), parent, author.id, peer.id, label)
-            .unwrap_or_else(|e| vrt::die(&format!("afc::create_uni_channel: {e}")));
+            .unwrap_or_else(|e| panic!("HONEST-FAIL afc::create_uni_channel: {e}"));
         let peer_pk_bytes = enc_pk(&peer.pk);
         let created = UniChannelCreated {
             parent_cmd_id: parent,
@@ -277,10 +271,10 @@ fn one(seed: u64, i: usize, cell: &Cell, inst: u64) -> Value {
             let mut prng = vrt::Rng::new(rng.next_u64());
             for TOp { op, a, b } in &cell.ops {
                 match (op.as_str(), a.as_str()) {
-                    ("replace", "parent") => p.parent = CmdId::from_bytes(other_id(&mut prng, parent.as_array())),
-                    ("replace", "label") => p.label = LabelId::from_bytes(other_id(&mut prng, label.as_array())),
-                    ("replace", "seal_id") => p.seal_id = DeviceId::from_bytes(other_id(&mut prng, author.id.as_array())),
-                    ("replace", "open_id") => p.open_id = DeviceId::from_bytes(other_id(&mut prng, peer.id.as_array())),
+                    ("replace", "parent") => p.parent = CmdId::from_bytes(ops::near(parent.as_array(), *b, &mut prng)),
+                    ("replace", "label") => p.label = LabelId::from_bytes(ops::near(label.as_array(), *b, &mut prng)),
+                    ("replace", "seal_id") => p.seal_id = DeviceId::from_bytes(ops::near(author.id.as_array(), *b, &mut prng)),
+                    ("replace", "open_id") => p.open_id = DeviceId::from_bytes(ops::near(peer.id.as_array(), *b, &mut prng)),
                     ("replace", "author") => p.author_alt = true,
                     ("replace", "peer") => p.peer_alt = true,
                     ("swap", "ids") => std::mem::swap(&mut p.seal_id, &mut p.open_id),
